@@ -186,7 +186,7 @@ func TestReduceWitness(t *testing.T) {
 		if md == nil {
 			return ""
 		}
-		bare := runBare(c, md, w.Args, rt)
+		bare := runBare(c, md, w.Args, rt, "")
 		dir, _ := os.MkdirTemp("", "c14red")
 		defer os.RemoveAll(dir)
 		nb, err := runNative(dir, []*program{p})
